@@ -727,6 +727,7 @@ class SimProcessWhole(SimProcess):
     configure_small = "configure_whole_small"
     configure_small2 = "configure_whole_small2"
     thorough_only = True
+    max_timeout_ms = 30000     # a cross-check of the modular decomposition: the quick budget per obligation is enough
 
     def loop_inv(self):
         return SimProcess.loop_inv(self)
